@@ -402,7 +402,17 @@ pub fn run_acl(seed: u64, r: &mut Report, stats: &mut crate::RunStats) {
             Op::Vamm { sender: roles.vamm_owner.clone(), vamm: 0, msg: vm::ExecuteMsg::UpdateOwner { owner: no.into() } },
             Op::Engine {
                 sender: roles.eng_owner.clone(),
-                msg: eng::ExecuteMsg::UpdateConfig { owner: Some(no.into()), insurance_fund: None, fee_pool: None, initial_margin_ratio: None, maintenance_margin_ratio: None, partial_liquidation_ratio: None, liquidation_fee: None },
+                // half of the hand-overs restate (unchanged) risk parameters and addresses in the same message: an
+                // ownership transfer must take effect whatever else the accepted message carries
+                msg: eng::ExecuteMsg::UpdateConfig {
+                    owner: Some(no.into()),
+                    insurance_fund: if rng.chance(1, 4) { Some(h.last.eng.insurance_fund.clone()) } else { None },
+                    fee_pool: if rng.chance(1, 4) { Some(h.last.eng.fee_pool.clone()) } else { None },
+                    initial_margin_ratio: None,
+                    maintenance_margin_ratio: if rng.chance(1, 4) { Some(u(h.last.eng.maint)) } else { None },
+                    partial_liquidation_ratio: if rng.chance(1, 4) { Some(u(h.last.eng.partial)) } else { None },
+                    liquidation_fee: if rng.chance(1, 3) { Some(u(h.last.eng.liq_fee)) } else { None },
+                },
                 funds: 0,
             },
             Op::Engine { sender: roles.pauser.clone(), msg: eng::ExecuteMsg::UpdatePauser { pauser: np.into() }, funds: 0 },
